@@ -269,8 +269,12 @@ def run(ctx):
                          'why': (m.group(1) if m else r.stderr[-300:])[:300]})
             start += 1
             aborts += 1
-            if aborts > 25:
-                raise vlib.MachineryError('driver keeps dying: ' + r.stderr[-800:])
+            if aborts >= 12:          # enough witnesses: the remaining inputs are not evaluated
+                ctx.notes.append('stopped after %d aborts; %d inputs not evaluated' % (aborts, len(lines) - start))
+                break
+    lines = lines[:len(outs)]
+    cases = cases[:len(outs)]
+    os.environ['_JAVA_OPTIONS'] = '-Xss16m'          # long TLV lists: give TLC's evaluator stack room
     nprefix = sum(len(o['ks']) for o in outs)
     prej, irej = ucheck.conformance(ctx, os.path.join(SPEC, 'Conf_ProxyProto.tla'), os.path.join(SPEC, 'Conf_ProxyProto.cfg'), outs, 'proxyp', chunk=1500)
     ctx.log('TLC evaluated %d inputs (%d parser runs): P-rejected %d, I-rejected %d' % (len(outs), nprefix, len(prej), len(irej)))
